@@ -87,6 +87,7 @@ func safeFile(s string) string {
 
 // CmdCheck runs the check of one property. Exit code 0: held; 1: violation; 2: infrastructure error.
 func CmdCheck(prop, tier string) int {
+	CurrentProperty = prop
 	t0 := time.Now()
 	if d := os.Getenv("VERIF_REPO"); d != "" {
 		RepoDir = d
